@@ -9,12 +9,14 @@ import os
 import common
 from common import sx
 import minif
-from props import c11_gen, c11_export as X, c11_progs
+from props import c11_gen, c11_export as X, c11_progs, c11_cbfam
 
 # The committed model follows the code with the four C11 fixes applied (fixes/C11-intrinsic-subroutine-args-written,
 # C11-inquiry-subscripts, C11-pure-subroutine-local-intents, C11-codeblock-accesses): rule "fixed".
 # Should C11-codeblock-accesses.patch not be applied to /repo: set this to "fixed3" and set the status of the entry
 # C11-codeblock-accesses-ignored in known_findings.d/C11.json back to "finding".
+# Once fixes/C11-inquiry-codeblock.patch is applied to /repo: set this to "fixed5" and the status of the entry
+# C11-inquiry-codeblock-subscripts to "fixed-by-patch".
 MODEL_RULE = "fixed"
 
 
@@ -77,6 +79,7 @@ class Item:
         self.real = None
         self.model = None
         self.traces = []     # (bindings, events)
+        self.executed = None  # execution family: base names of the variables gfortran's run of the statement modified
 
 
 def random_bindings(rng, exp):
@@ -93,10 +96,25 @@ def classify(item, miss_r, miss_w):
     from psyclone.psyir import nodes as N
     if item.model != item.real:
         return None       # the committed model does not reproduce it: new
+    open_findings = {e["id"] for e in common.known_findings("C11") if e.get("status") == "finding"}
+    # an inquiry intrinsic whose (skipped) first argument is an expression CodeBlock: its subscripts / sub-string bounds
+    inq = set()
+    for ic in item.node.walk(N.IntrinsicCall):
+        if ic.intrinsic.is_inquiry and ic.arguments and X.is_expr_codeblock(ic.arguments[0]):
+            _, crd, cdv = X.codeblock_expr_info(ic.arguments[0])
+            inq |= X.cb_subs(crd, cdv)
+    if "C11-inquiry-codeblock-subscripts" in open_findings and miss_r and set(miss_r) <= inq and not miss_w:
+        return "C11-inquiry-codeblock-subscripts"
     # a CodeBlock records nothing: every missing item is a variable named in a CodeBlock of the statement
     cb_r, cb_w = set(), set()
     for cb in item.node.walk(N.CodeBlock):
-        r, w = X.codeblock_names(cb)
+        if "C11-codeblock-accesses-ignored" not in open_findings:
+            break
+        if X.is_expr_codeblock(cb):
+            _, r, dv = X.codeblock_expr_info(cb)
+            w = {dv} if dv else set()
+        else:
+            r, w = X.codeblock_names(cb)
         cb_r |= r
         cb_w |= w
     pure_args = set()
@@ -108,7 +126,7 @@ def classify(item, miss_r, miss_w):
         return None
     if set(miss_r) & cb_r or set(miss_w) & cb_w:
         return "C11-codeblock-accesses-ignored"
-    if set(miss_w) & pure_args:
+    if set(miss_w) & pure_args and "C11-pure-subroutine-args-read" in open_findings:
         return "C11-pure-subroutine-args-read"
     return None
 
@@ -140,6 +158,12 @@ def property_failures(item, names_by_id):
             late = sorted(n for n, a in by_name.items() if any(l > wlocs[-1] for _, l, _ in a))
             if accs[-1][0] != "W" or late:
                 out.append(("assignment-order", late, [tgt] if accs[-1][0] != "W" else [], None))
+    if item.executed is not None:
+        # real execution (gfortran): every variable whose value the statement changed must be reported written
+        rep_base = {n.split("%")[0] for n in rep_w}
+        mw = sorted(item.executed - rep_base)
+        if mw:
+            out.append(("gfortran-execution", [], mw, {"executed_modified": sorted(item.executed)}))
     for bindings, events in item.traces:
         dr = {names_by_id[e[1]] for e in events if e[0] == "r"}
         dw = {names_by_id[e[1]] for e in events if e[0] == "w"}
@@ -209,6 +233,8 @@ def check_items(chk, items, stats):
         if new and nviol < 3:
             kind_f, mr, mw, detail = new[0]
             nviol += 1
+            if it.origin.get("family") == "exec":
+                it.origin, it.idx = reduced_family_origin(it)
             chk.violation({"kind": "failing-input", "origin": it.origin, "stmt_index": it.idx, "stmt": text,
                            "check": kind_f, "missing_reads": mr, "missing_writes": mw, "detail": detail,
                            "observed": {names_by_id[int(k)]: v for k, v in real_c[0].items()},
@@ -222,6 +248,57 @@ def check_items(chk, items, stats):
                                       {"accesses": {names_by_id.get(int(k), k): v for k, v in real_c[0].items()}
                                        if not isinstance(real_c[0], str) else real_c[0], "end": real_c[1]})
     return nviol
+
+
+# ---------------------------------------------------------------------------
+def family_items(chk, stats):
+    """the execution family (c11_cbfam): one gfortran run gives the variables each statement really modifies"""
+    stmts = c11_cbfam.statements(chk.tier)
+    src = c11_cbfam.program(stmts)
+    modified = c11_cbfam.execute(src)
+    items = []
+    for convert in ([True, False] if chk.tier == "thorough" else [True]):
+        psyir = parse_source(src, convert)
+        index = {id(n): k for k, n in enumerate(statement_nodes(psyir))}
+        nodes = c11_cbfam.family_nodes(psyir)
+        if len(nodes) != len(stmts):
+            raise common.Infra("C11 execution family: statement count mismatch")
+        for k, node in enumerate(nodes):
+            it = Item({"family": "exec", "k": k, "text": stmts[k], "convert": convert}, index[id(node)], node)
+            it.executed = set(modified.get(k, set()))
+            items.append(it)
+    stats["exec_family"] = {"statements": len(stmts), "with_real_modification": sum(1 for k in range(len(stmts)) if modified.get(k)),
+                            "with_expression_codeblock": sum(1 for it in items if any(X.is_expr_codeblock(c) for c in it.node.walk(_cb_class())))}
+    return items
+
+
+def _cb_class():
+    from psyclone.psyir import nodes as N
+    return N.CodeBlock
+
+
+def reduced_family_origin(it):
+    """a self-contained program with only the failing statement of the execution family, and its statement index"""
+    src = c11_cbfam.program([it.origin["text"]])
+    psyir = parse_source(src, it.origin["convert"])
+    node = c11_cbfam.family_nodes(psyir)[0]
+    idx = [k for k, n in enumerate(statement_nodes(psyir)) if n is node][0]
+    return {"family": "exec", "k": 0, "source": src, "convert": it.origin["convert"]}, idx
+
+
+def check_overrides(chk):
+    """every class that overrides reference_accesses must be classified (modelled / outside the model)"""
+    table = c11_gen.override_table()
+    known = c11_gen.CLASSIFIED["reference_accesses"]
+    live = table["reference_accesses"]
+    chk.cov["reference_accesses_overrides"] = {n: ("modelled" if known.get(n) else "outside the model" if n in known else "UNCLASSIFIED")
+                                               for n in live}
+    chk.cov["get_signature_and_indices_overrides"] = table["get_signature_and_indices"]
+    new = [n for n in live if n not in known]
+    gone = [n for n in known if n not in live]
+    if new or gone:
+        chk.correspondence_broken("the set of classes overriding reference_accesses changed", {"new": new, "removed": gone},
+                                  sorted(known), live)
 
 
 # ---------------------------------------------------------------------------
@@ -248,7 +325,7 @@ def test_files(chk):
 def run(chk):
     chk.cov["rule"] = ("one case = one statement (Assignment, IfBlock, Loop, WhileLoop, CALL, intrinsic statement incl. "
                        "ALLOCATE/DEALLOCATE, Return, CodeBlock; at every nesting level) of a generated program or of a bundled NEMO/GOcean/LFRic "
-                       "test file; compared: per-variable ordered (kind, location, #indices) lists + end location + "
+                       "test file or of the execution family (c11_cbfam: argument kind x callee kind x context, really executed); compared: per-variable ordered (kind, location, #indices) lists + end location + "
                        "refusal; non-trivial = not refused and at least two variables accessed; distinct by text+result")
     chk.assumptions += [
         "by-reference argument association: a callee may store into any actual argument that is a reference unless "
@@ -259,8 +336,12 @@ def run(chk):
         "MiniF value domain (integers); rank>2 / section references are traced on their first two subscripts",
         "DO WHILE is traced for a bounded number of iterations (theorems: every bound); RETURN/EXIT/CYCLE are modelled as "
         "no-ops: the real trace is a prefix of the modelled one",
-        "a CodeBlock is an opaque statement with a may-read / may-define variable set taken from its fparser2 parse tree "
-        "(codeblock_names in c11_export.py)",
+        "a statement CodeBlock is an opaque statement with a may-read / may-define variable set taken from its fparser2 parse "
+        "tree (codeblock_names in c11_export.py); an expression CodeBlock may read every data variable named in it (implied-DO "
+        "variables excepted) and, when its text is a designator whose base is a data variable, is definable through "
+        "argument association (codeblock_expr_info)",
+        "execution family: gfortran 12 -O0 runs the statements from a fixed initial state; a variable is 'really modified' "
+        "when its value differs afterwards",
         "a PURE subroutine defined in the same Container cannot store into INTENT(IN) dummies (declared intents are trusted)"]
     chk.cov["trusted_base"] = ["Lean 4.33.0 kernel", "axioms propext/Classical.choice/Quot.sound only (audited)",
                                "translator harness/props/c11_gen.py (IntrinsicCall.Intrinsic -> Gen/Intrinsics.lean)",
@@ -285,6 +366,8 @@ def run(chk):
         got = items_of_source(src, False, {"file": os.path.relpath(f, common.REPO)}, stats)
         nfile += bool(got)
         items += got
+    items += family_items(chk, stats)
+    check_overrides(chk)
     stats["programs"], stats["files_with_statements"], stats["statements"] = nprog, nfile, len(items)
     check_items(chk, items, stats)
     chk.cov["distribution"] = stats
@@ -322,6 +405,13 @@ def replay_witness(payload, quiet=False):
     may_r |= set(d.get("dyn_reads", []))
     may_w |= set(d.get("dyn_writes", []))
     mr, mw = sorted(may_r - rep_r), sorted(may_w - rep_w)
+    origin = payload.get("origin", payload)
+    if origin.get("family") == "exec":
+        # run the program again: what does the statement really modify?
+        executed = c11_cbfam.execute(origin["source"]).get(origin.get("k", 0), set())
+        mw = sorted(set(mw) | (executed - {n.split("%")[0] for n in rep_w}))
+        if not quiet:
+            print("executed : gfortran run of the statement modified", sorted(executed))
     from psyclone.psyir import nodes as N
     if isinstance(node, N.Assignment):
         tgt = X.sig_indices(node.lhs)[0]
